@@ -883,11 +883,11 @@ func (client *client) subscribeHandler(sub *packets.Subscribe) *codes.Error {
 	for k, v := range sub.Topics {
 		sub := subReq.Subscriptions[v.Name].Sub
 		subErr := converError(subReq.Subscriptions[v.Name].Error)
-		var isShared bool
+		// a shared subscription is one whatever the protocol version of the subscriber: no retained messages for it
+		isShared := sub.ShareName != ""
 		code := sub.QoS
 		if client.version == packets.Version5 {
 			if sub.ShareName != "" {
-				isShared = true
 				if !client.opts.SharedSubAvailable {
 					code = codes.SharedSubNotSupported
 				}
